@@ -355,6 +355,36 @@ def check(fx, rep, tier):
             sample={"rule": "R11.5", "fn": name, "readers": readers, "reviewed_as": row[2][:80] if row else None},
         )
 
+    for name, readers in sorted(found5.items()):
+        row = rows5.get(name)
+        if row is not None and len(row) > 3 and row[3].strip() == "slot-dependent":
+            rep.oblige(
+                False,
+                "R11.5",
+                f"slot-dependent:{name}",
+                F.loc(fx.body(name)["span"]),
+                f"`{name}` inspects a constant that can be (or contain) a slot number: {row[2][:200]}",
+            )
+    # the per-target fork budget is one table for the whole machine: code of unrelated fragments that forks to a shared target
+    # uses up the budget of the others (a global limit is a channel between fragments)
+    fork_tables = {b.get("impl_self") for b in fx.fn_bodies() if b.get("name") == "fork_to" and b.get("impl_self")}
+    for ft in sorted(fork_tables):
+        holders = []
+        for an, adt in fx.adts.items():
+            for v in adt.get("variants", []):
+                for f in v["fields"]:
+                    if ft in f["ty"]:
+                        holders.append((an, f["name"]))
+        global_holders = [h for h in holders if h[0] == "vm::VM"]
+        rep.oblige(
+            not global_holders,
+            "R11.1",
+            "global-fork-budget",
+            F.loc(fx.adts["vm::VM"]["span"]) if "vm::VM" in fx.adts else "-",
+            f"the fork budget per jump target (`{ft}`) is held by the machine ({global_holders}) and shared by every thread of the program: forks made by one fragment to a shared target count against every other fragment, so adding code that never touches a slot can remove that slot's entry",
+            sample={"rule": "R11.1", "fork_table": ft, "held_by": holders},
+        )
+
     # a table of hash pre-images built from a bounded range of slot numbers makes recognition depend on the slot number
     n_tab = 0
     cg5 = F.CallGraph(fx)
@@ -403,6 +433,11 @@ def check(fx, rep, tier):
             )
     rep.extra["hash_preimage_tables"] = n_tab
 
+    # the only VM-wide piece of mutable state that outlives a thread is the request to kill the current one: it must be cleared
+    # at every retirement, or it reaches into the next queued thread - code of an unrelated fragment (C08 R08.3, re-evaluated)
+    from .. import core as _core
+
+    _core.import_rules(rep, fx, "C08", "R11.1", only_rules=("R08.3",), floor=5, what="thread-retirement obligations (C08 R08.3) behind 'no channel between threads'")
     # evidence of an earlier run must not take part in the next one (shared with C05 R05.7)
     from .c05 import check_fresh_run
 
